@@ -414,7 +414,13 @@ impl<W: Write> Runner<W> {
                 let except = getu(st, "except");
                 let bytes = content(tag, len);
                 let cid = w.register(tag, &bytes);
-                let targets: Vec<u64> = w.server.clients_id();
+                // every connection in the table that is not disconnected is sent the message
+                let targets: Vec<u64> = w
+                    .clients
+                    .keys()
+                    .copied()
+                    .filter(|c| w.server.verif_connection(*c).map_or(false, |x| !x.is_disconnected()))
+                    .collect();
                 let r = guarded(|| {
                     if except > 0 {
                         w.server.broadcast_message_except(except, ch, Bytes::from(bytes.clone()))
@@ -517,6 +523,22 @@ impl<W: Write> Runner<W> {
                     } else {
                         match call.as_str() {
                             "disconnect" => w.server.disconnect(conn),
+                            "new_local_client" => {
+                                let c = w.server.new_local_client(conn);
+                                w.clients.insert(conn, c);
+                            }
+                            "disconnect_local_client" => {
+                                if let Some(mut c) = w.clients.remove(&conn) {
+                                    w.server.disconnect_local_client(conn, &mut c);
+                                    w.clients.insert(conn, c);
+                                }
+                            }
+                            "process_local_client" => {
+                                if let Some(mut c) = w.clients.remove(&conn) {
+                                    let _ = w.server.process_local_client(conn, &mut c);
+                                    w.clients.insert(conn, c);
+                                }
+                            }
                             "add_connection" => w.server.add_connection(conn),
                             "remove_connection" => w.server.remove_connection(conn),
                             "disconnect_all" => w.server.disconnect_all(),
@@ -580,6 +602,17 @@ impl<W: Write> Runner<W> {
                     self.round(w, conn, dt);
                 }
             }
+            "roundeach" => {
+                // one good round per connection, the server side advanced through the per-connection hook
+                let dt = getu(st, "dt");
+                let ids: Vec<u64> = w.clients.keys().copied().collect();
+                for c in ids {
+                    if w.dead {
+                        break;
+                    }
+                    self.round_conn(w, c, dt);
+                }
+            }
             "drain" => {
                 let side = Self::side_of(st, "side");
                 self.drain(w, conn, side);
@@ -628,6 +661,42 @@ impl<W: Write> Runner<W> {
             self.drain(w, c, 'C');
         }
         self.emit(json!({"ev":"round_end","conn":conn}));
+    }
+
+    /// Good round of one connection; the server side connection is updated alone (hook), so that other
+    /// connections keep their own clocks.
+    fn round_conn(&mut self, w: &mut World, c: u64, dt: u64) {
+        let st0 = w.proj(c, 'S');
+        let r = guarded(|| {
+            if let Some(x) = w.server.verif_connection_mut(c) {
+                x.update(Duration::from_millis(dt));
+            }
+        });
+        let t = {
+            let e = w.tclock.entry((c, 'S')).or_insert(0);
+            *e += dt;
+            *e
+        };
+        let st1 = w.proj(c, 'S');
+        self.emit(json!({"ev":"update","conn":c,"side":"S","dt":dt,"t":t,"st0":st0,"st1":st1,"panic":r.is_err()}));
+        self.do_update(w, c, 'C', dt);
+        self.do_flush(w, c, 'S');
+        self.do_flush(w, c, 'C');
+        for from in ['S', 'C'] {
+            let to = if from == 'S' { 'C' } else { 'S' };
+            let list: Vec<(usize, usize)> = std::mem::take(w.inflight.entry((c, from)).or_default());
+            for (fl, ix) in list {
+                if w.dead {
+                    return;
+                }
+                let pk = w.flushes[&(c, from)][fl - 1][ix - 1].clone();
+                w.flushes.get_mut(&(c, from)).unwrap()[fl - 1][ix - 1].delivered += 1;
+                self.do_deliver(w, c, to, &pk.bytes, pk.desc.clone(), "genuine", fl, ix, pk.delivered);
+            }
+        }
+        self.drain(w, c, 'S');
+        self.drain(w, c, 'C');
+        self.emit(json!({"ev":"round_end","conn":c}));
     }
 
     fn drain(&mut self, w: &mut World, conn: u64, side: char) {
@@ -729,7 +798,7 @@ impl<W: Write> Runner<W> {
             }
         });
         let st1 = w.proj(conn, side);
-        let t = if side == 'S' { w.sclock } else { *w.tclock.get(&(conn, side)).unwrap_or(&0) };
+        let t = if side == 'S' { w.sclock + *w.tclock.get(&(conn, 'S')).unwrap_or(&0) } else { *w.tclock.get(&(conn, side)).unwrap_or(&0) };
         let pkts: Vec<Vec<u8>> = match &r {
             Ok(Some(p)) => p.clone(),
             _ => vec![],
